@@ -4,6 +4,7 @@ from fractions import Fraction
 import common
 
 LEAN_MODULES = ['OpusProps.C05']
+EXTENSIONS = ['C05ranges']   # extension slices merged into this property's check (tools/EXT_BRIEF.md)
 GEN = ['EncTables']
 SOURCES = ['celt/celt.h', 'src/opus_encoder.c', 'src/repacketizer.c', 'src/opus.c', 'src/opus_private.h', 'src/opus_multistream_encoder.c',
            'src/opus_projection_encoder.c', 'src/analysis.c', 'celt/celt_encoder.c', 'celt/entenc.c', 'celt/entcode.h',
